@@ -19,21 +19,6 @@ Proof.
     intros [|j] Hj; [reflexivity|]. apply O. congruence.
 Qed.
 
-(* stores: [chg lo hi] = only slots of [lo,hi) may differ *)
-Definition chg (lo hi : nat) (s s' : list sv) : Prop :=
-  length s = length s' /\ forall i, ~ (lo <= i < hi) -> nth_error s i = nth_error s' i.
-Lemma chg_refl : forall lo hi s, chg lo hi s s.
-Proof. split; auto. Qed.
-Lemma chg_trans : forall lo hi a b c, chg lo hi a b -> chg lo hi b c -> chg lo hi a c.
-Proof. intros lo hi a b c [L1 H1] [L2 H2]. split; [congruence|]. intros i Hi. rewrite H1, H2; auto. Qed.
-Lemma chg_mono : forall lo hi lo' hi' a b, lo' <= lo -> hi <= hi' -> chg lo hi a b -> chg lo' hi' a b.
-Proof. intros lo hi lo' hi' a b ? ? [L H]. split; auto. intros i Hi. apply H. lia. Qed.
-Lemma chg_update : forall lo hi s k v s', update s k v = Some s' -> lo <= k < hi -> chg lo hi s s'.
-Proof.
-  intros lo hi s k v s' U Hk. destruct (update_spec _ _ _ _ U) as (L & _ & O).
-  split; [auto|]. intros i Hi. symmetry. apply O. lia.
-Qed.
-
 Section Mach.
 Variable nt : natives.
 Variable code : list instr.
